@@ -365,6 +365,9 @@ func ruleC11Name(p *Prog, a *Anchors, r *Report) {
 		args := ci.Common().Args
 		key := p.FuncName(f) + ":" + callee.Name()
 		pos := p.InstrPos(in)
+		if a.FileLoaders[callee] {
+			callee = fromFile
+		}
 		switch callee {
 		case fromFile:
 			// a helper that is handed the already resolved name: judge the name at the helper's call sites
@@ -524,7 +527,12 @@ func ruleC11Only(p *Prog, a *Anchors, r *Report) {
 		if fn == nil {
 			continue
 		}
-		for _, c := range callsTo(fn, fromFile) {
+		var loads []ssa.CallInstruction
+		for ld := range a.FileLoaders {
+			loads = append(loads, callsTo(fn, ld)...)
+		}
+		_ = fromFile
+		for _, c := range loads {
 			call := c.(*ssa.Call)
 			var errEx *ssa.Extract
 			for _, u := range refs(call) {
@@ -764,7 +772,12 @@ func ruleC11StaticName(p *Prog, a *Anchors, r *Report) {
 		r.Unk("anchor", "-", "anchor unresolved: include parser / FromFile")
 		return
 	}
-	for _, c := range callsTo(f, fromFile) {
+	var loads []ssa.CallInstruction
+	for ld := range a.FileLoaders {
+		loads = append(loads, callsTo(f, ld)...)
+	}
+	_ = fromFile
+	for _, c := range loads {
 		in := c.(ssa.Instruction)
 		key := p.FuncName(f) + ":static-decision"
 		// on every path to the compile-time fetch a test of the token AFTER the literal (or of the remaining count) was made
